@@ -53,6 +53,8 @@ type Program struct {
 	parents map[ast.Node]ast.Node
 
 	postconds    map[*types.Func][]lenPostcond
+	postCache    map[*FuncInfo]*postInfo
+	postBusy     map[*FuncInfo]bool
 	postcondBusy bool
 
 	ssaProg *ssa.Program
